@@ -307,8 +307,12 @@ def colebrook_white(re, d, k, lambda_nikuradse, max_iter, lengths, tolerance=1e-
         # no branch with a length and a flow (e.g. a net of valves only): nothing to iterate
         return True, lambda_res
 
-    res = newton(colebrook_white_implicit, lambda_res[mask], maxiter=max_iter, args=(re[mask], k[mask], d[mask]),
-                 tol=tolerance, full_output=True, fprime=cw_derivative)  # , fprime2=cw_derivative_2)
+    try:
+        res = newton(colebrook_white_implicit, lambda_res[mask], maxiter=max_iter, args=(re[mask], k[mask], d[mask]),
+                     tol=tolerance, full_output=True, fprime=cw_derivative, disp=False)  # , fprime2=cw_derivative_2)
+    except RuntimeError:
+        # scipy raises if none of several values converged (a single value is reported via the flag)
+        return False, lambda_res
 
     if lambda_res[mask].size == 1:
         lambda_res[mask] = res[0]
